@@ -742,7 +742,7 @@ async fn v3_protocol(app: Rc<App>, msg: v3::ProtocolMessage) -> Result<v3::Proto
         v3::ProtocolMessage::Disconnect(_) => ("disconnect", None),
         v3::ProtocolMessage::Subscribe(s) => ("subscribe", Some(packet_id_of_v3_sub(s))),
         v3::ProtocolMessage::Unsubscribe(_) => ("unsubscribe", None),
-        v3::ProtocolMessage::PublishRelease(_) => ("pubrel", None),
+        v3::ProtocolMessage::PublishRelease(r) => ("pubrel", Some(r.packet_id.get())),
     };
     match proto_common(&app, kind, pid).await {
         ProtoAnswer::Ack => Ok(match msg {
@@ -1362,7 +1362,7 @@ async fn v3_client_protocol(app: Rc<App>, msg: v3::client::ProtocolMessage) -> R
                 _ => Err(TestErr::Plain),
             }
         }
-        v3::client::ProtocolMessage::PublishRelease(r) => match proto_common(&app, "pubrel", None).await {
+        v3::client::ProtocolMessage::PublishRelease(r) => match proto_common(&app, "pubrel", Some(r.packet_id.get())).await {
             ProtoAnswer::Err => Err(TestErr::Plain),
             _ => Ok(r.ack()),
         },
